@@ -1,9 +1,9 @@
 """C13 - world switching delivers in/out events to the worlds that run."""
-from harness.loop_common import (gen, run, encode, shrink, mutate, nontrivial,  # noqa: F401
-                                 stats)
+from harness.loop_common import (gen, run, shrink, mutate, nontrivial, stats)  # noqa: F401
+from harness.loop_common import encode_r as encode  # noqa: F401
 
 ID = 'C13'
-COQ_MODULE = 'Desper.Loop.C13Model'
+COQ_MODULE = 'Desper.Loop.R13Model'
 CASE_TYPE = 'C13_case'
 VERDICT = 'C13_verdict'
 PROPS_FILE = 'theories/Props/C13.v'
@@ -18,7 +18,10 @@ RULE = ('one SimpleLoop, 1-4 WorldHandle doubles (real WorldHandle.load, a trans
         'from the processor, an event callback or a coroutine; every frame may poke events at '
         'the worlds other handles hold (left worlds must hold them); the generator never '
         'produces the K5 pattern on purpose (its witness is in known_findings.json); '
-        'non-trivial = at least 3 frames and one switch')
+        'every operation may carry 1-3 one-shot reactions of the listener callbacks '
+        '(on_world_load / on_switch_in: Quit, quit_loop, another exception; on_switch_out / '
+        'on_quit: also switch() and bare SwitchWorld), nested to any depth; the K10 pattern is '
+        'never generated on purpose; non-trivial = at least 3 frames and one switch')
 TRUSTED = [
     'Coq 8.16.1 kernel + vm_compute (evaluation of C13_verdict on the observed logs)',
     'hand-written model Loop/Model.v tied to /repo by this correspondence run (sampled)',
@@ -26,8 +29,8 @@ TRUSTED = [
     'scripted time function; world instances identified by load order (attribute set by the '
     'transform function)',
 ]
-ASSUMPTIONS = ['callbacks of the doubles only log (they neither raise nor toggle dispatching)',
+ASSUMPTIONS = ['the listener callbacks act only through the scripted one-shot reactions',
                'one listener component per world (delivery order among several listeners of '
                'one event is C03)',
-               'a frame that quits or raises is the last frame of its start script']
+               'poke callbacks only log']
 CASE_TIMEOUT = 5
